@@ -3,6 +3,9 @@ package e1
 import (
 	"fmt"
 	"net/url"
+
+	"github.com/aukilabs/hagall-common/messages/hagallpb"
+	"google.golang.org/protobuf/proto"
 	"sort"
 	"strings"
 	"time"
@@ -24,6 +27,8 @@ type Config struct {
 	Flags      []string // DISABLE_* flags for every connection of this history
 	Avoid      []string
 	Census     bool // goroutine census at the end (costly)
+	Groups     int  // see Gen.Groups
+	Record     bool // record actions and per-step windows (differential runs)
 }
 
 func (c Config) String() string {
@@ -60,11 +65,12 @@ type Stats struct {
 	EventsByType   map[string]int
 	MaxMembers     int
 	ClassesChanged map[string]bool
+	Marks          map[string]int // named situations that occurred and were checked (non-triviality rules)
 }
 
 func newStats() *Stats {
 	return &Stats{Kinds: map[string]int{}, Accepted: map[string]int{}, Refused: map[string]int{}, RefusalReasons: map[string]int{},
-		EventsByType: map[string]int{}, ClassesChanged: map[string]bool{}}
+		EventsByType: map[string]int{}, ClassesChanged: map[string]bool{}, Marks: map[string]int{}}
 }
 
 func (s *Stats) Merge(o *Stats) {
@@ -86,6 +92,9 @@ func (s *Stats) Merge(o *Stats) {
 	}
 	for k := range o.ClassesChanged {
 		s.ClassesChanged[k] = true
+	}
+	for k, v := range o.Marks {
+		s.Marks[k] += v
 	}
 	s.RelaysMatched += o.RelaysMatched
 	s.MayMatched += o.MayMatched
@@ -120,6 +129,20 @@ type Runner struct {
 	baseWorkers  int
 	cur          string // kind of the action in progress (trigger class of a failure)
 	curReason    string
+	tags         map[int64]tagInfo // every request issued, by its unique origin tag
+	// differential runs
+	Script  []Action                 // when set, executed instead of generated actions
+	Actions []Action                 // executed actions (Record)
+	Rec     map[int]map[int][]string // conn -> step -> sorted normalised window (Record)
+	created map[[2]int]string        // symbolic session reference -> session id in this run
+	sidRef  map[string][2]int        // session id -> latest creation reference
+	stepNo  int
+}
+
+type tagInfo struct {
+	conn int
+	kind string
+	uuid string // session the sender was in when it sent the request ("" = none)
 }
 
 func NewRunner(p *sut.Proc, cfg Config) *Runner {
@@ -140,6 +163,9 @@ func (r *Runner) fail(v model.Violation, extra string) {
 		return
 	}
 	h := append([]string(nil), r.Hist...)
+	if r.flagged() {
+		v.Props = append(append([]string(nil), v.Props...), "C17")
+	}
 	trig := r.cur
 	if r.curReason != "" {
 		trig += ":" + strings.ReplaceAll(strings.TrimSpace(r.curReason), " ", "-")
@@ -160,12 +186,40 @@ func (r *Runner) Run() {
 	if every <= 0 {
 		every = 7
 	}
-	for step := 0; step < r.Cfg.Steps && r.Fail == nil && r.Inconclusive == ""; step++ {
+	r.G.Groups = r.Cfg.Groups
+	r.created = map[[2]int]string{}
+	r.sidRef = map[string][2]int{}
+	r.Rec = map[int]map[int][]string{}
+	nSteps := r.Cfg.Steps
+	if r.Script != nil {
+		nSteps = len(r.Script)
+	}
+	for step := 0; step < nSteps && r.Fail == nil && r.Inconclusive == ""; step++ {
 		if !r.P.Alive() {
 			r.fail(model.Violation{Props: []string{"C08", "C09"}, Clause: "process/exited", Detail: "the server process ended: " + r.P.ExitInfo()}, r.P.LogTail(6000))
 			return
 		}
-		a := r.G.Next()
+		var a Action
+		if r.Script != nil {
+			a = r.Script[step]
+			if a.Req != nil {
+				rq := *a.Req
+				a.Req = &rq
+				if a.JoinRef != nil {
+					if sid, ok := r.created[*a.JoinRef]; ok {
+						a.Req.SID = sid
+					}
+				}
+			}
+			r.stepNo = a.Step
+		} else {
+			a = r.G.Next()
+			a.Step = step
+			r.stepNo = step
+		}
+		if r.Cfg.Record {
+			r.Actions = append(r.Actions, a)
+		}
 		r.Stats.Steps++
 		r.Stats.Kinds[a.Kind]++
 		r.exec(a)
@@ -181,9 +235,9 @@ func (r *Runner) Run() {
 	r.Stats.SIDsReused = r.M.Reused
 }
 
-func (r *Runner) dial(id int) (*d.Client, error) {
+func (r *Runner) dial(id int, noFlags bool) (*d.Client, error) {
 	q := url.Values{"mods": {r.Cfg.Mods}}
-	if len(r.Cfg.Flags) > 0 {
+	if len(r.Cfg.Flags) > 0 && !noFlags {
 		q.Set("flags", strings.Join(r.Cfg.Flags, ","))
 	}
 	return d.Dial(id, r.P.Addr, q, nil)
@@ -193,14 +247,18 @@ func (r *Runner) exec(a Action) {
 	r.cur, r.curReason = a.Kind, ""
 	switch a.Kind {
 	case "open":
-		c, err := r.dial(a.Conn)
+		c, err := r.dial(a.Conn, a.NoFlags)
 		if err != nil {
 			r.Inconclusive = "dial failed: " + err.Error()
 			return
 		}
 		r.Clients[a.Conn] = c
 		r.Views[a.Conn] = model.NewView(a.Conn)
-		r.M.AddConn(a.Conn, r.Cfg.Mods, r.Cfg.Flags)
+		if a.NoFlags {
+			r.M.AddConn(a.Conn, r.Cfg.Mods, nil)
+		} else {
+			r.M.AddConn(a.Conn, r.Cfg.Mods, r.Cfg.Flags)
+		}
 		r.note("c%d open", a.Conn)
 		// a pong proves that websocket.Handle is running for this connection
 		// (HandleConnect precedes its main loop), so gauges are settled
@@ -215,6 +273,7 @@ func (r *Runner) exec(a Action) {
 		if wasJoined {
 			r.Stats.Departures++
 			r.noteGone(mc)
+			r.departureMarks(mc)
 		}
 		switch a.Req.How {
 		case "rst":
@@ -271,6 +330,15 @@ func (r *Runner) request(a Action) {
 			r.G.NoteEntityGone(prevSess.UUID, req.Entity)
 		}
 	}
+	r.preMarks(mc, req)
+	if r.tags == nil {
+		r.tags = map[int64]tagInfo{}
+	}
+	ti := tagInfo{conn: a.Conn, kind: req.Kind}
+	if mc.Sess != nil {
+		ti.uuid = mc.Sess.UUID
+	}
+	r.tags[d.TagID(req.Tag)] = ti
 	if err := cl.Send(req.Proto()); err != nil {
 		// the peer is gone already: the barrier will tell
 		r.note("  send error: %v", err)
@@ -292,6 +360,18 @@ func (r *Runner) request(a Action) {
 		}
 	} else {
 		win, err = cl.Barrier()
+	}
+	// A request that needs a session, from a connection that is in none, may
+	// legitimately end the connection (C04) - but the pong of the barrier can
+	// overtake the close: the main loop picks at random between its message
+	// queue and its disconnect queue. Keep asking: every further pong halves
+	// the chance that a pending disconnect is still unserved.
+	if err == nil && mc.Sess == nil && req.Kind != "join" && req.Kind != "ping" && req.Kind != "receipt" {
+		for i := 0; i < 40 && err == nil; i++ {
+			var w []*d.Event
+			w, err = cl.Barrier()
+			win = append(win, w...)
+		}
 	}
 	if err == d.ErrTimeout {
 		r.wedge(cl, "no pong on the requester's connection after "+req.String())
@@ -319,6 +399,13 @@ func (r *Runner) request(a Action) {
 		r.Stats.Refused[req.Kind]++
 		r.Stats.RefusalReasons[req.Kind+": "+strings.TrimSpace(o.Reason)]++
 	}
+	if o.Joined != nil && req.SID == "" {
+		ref := r.G.NoteCreated(o.Joined.SID, r.G.Group(a.Conn))
+		r.created[ref] = o.Joined.SID
+		r.sidRef[o.Joined.SID] = ref
+	}
+	r.record(a.Conn, win)
+	r.postMarks(mc, req, o)
 	// fold into the requester's view
 	v := r.Views[a.Conn]
 	if o.Joined != nil {
@@ -394,8 +481,9 @@ func (r *Runner) settle(a Action, o *model.Outcome, prevSess *model.Session) {
 		for _, e := range win {
 			r.Stats.EventsByType[d.TypeName(e.Type)]++
 		}
-		must := append([]model.Pat(nil), o.Must[id]...)
-		may := append([]model.Pat(nil), o.May[id]...)
+		r.record(id, win)
+		must := r.unsuppressed(o.Must[id], requester)
+		may := r.unsuppressed(o.May[id], requester)
 		usedMust := make([]bool, len(must))
 		usedMay := make([]bool, len(may))
 		view := r.Views[id]
@@ -411,7 +499,7 @@ func (r *Runner) settle(a Action, o *model.Outcome, prevSess *model.Session) {
 				if !usedMust[i] && p.Matches(e.M) {
 					usedMust[i] = true
 					r.Stats.RelaysMatched++
-					view.Apply(e, true)
+					view.Apply(e, !r.flagged())
 					continue events
 				}
 			}
@@ -419,9 +507,19 @@ func (r *Runner) settle(a Action, o *model.Outcome, prevSess *model.Session) {
 				if !usedMay[i] && p.Matches(e.M) {
 					usedMay[i] = true
 					r.Stats.MayMatched++
-					view.Apply(e, true)
+					view.Apply(e, !r.flagged())
 					continue events
 				}
+			}
+			if ti, ok := r.attribute(e); ok && (ti.kind == "pose" || ti.kind == "comp_upd") && (mc.Sess == nil || ti.uuid != mc.Sess.UUID) {
+				// a deferred update that was sent while its sender was not in this
+				// session has been executed in it
+				save := r.cur
+				r.cur, r.curReason = "", ""
+				r.fail(model.Violation{Props: []string{"C03", "C04"}, Clause: "isolation/deferred-update-crosses-session-boundary",
+					Detail: fmt.Sprintf("connection %d (in session %s) received %s, caused by a %s that connection %d sent while it was in session %q (\"\" = none): an update still pending in the sender's scheduler was executed in the session it joined later", id, sessName(mc), e, ti.kind, ti.conn, ti.uuid)}, "")
+				r.cur = save
+				continue
 			}
 			props := r.blame(e, o, mc, requester, prevSess)
 			dup := false
@@ -616,7 +714,7 @@ func (r *Runner) checkpoint() {
 	r.Stats.Checkpoints++
 	r.cur, r.curReason = "checkpoint", ""
 	for id, mc := range r.M.Conns {
-		if mc.Dead || mc.Sess == nil {
+		if mc.Dead || mc.Sess == nil || r.flagged() {
 			continue
 		}
 		v := r.Views[id]
@@ -649,6 +747,7 @@ func (r *Runner) checkpoint() {
 // finalChecks: probes for every live session, then everything is closed and
 // the registry must be empty again.
 func (r *Runner) finalChecks() {
+	r.stepNo = -1
 	// a probe joins every live session by id and is handed the state, which
 	// Model.Step compares with the model (C01 newcomer clause, C07 findable)
 	for _, sid := range r.G.liveSIDs() {
@@ -656,8 +755,8 @@ func (r *Runner) finalChecks() {
 			return
 		}
 		r.G.nextConn++
-		id := r.G.nextConn
-		r.exec(Action{Kind: "open", Conn: id})
+		id := r.G.nextConn + 1000
+		r.exec(Action{Kind: "open", Conn: id, NoFlags: true})
 		if r.Inconclusive != "" {
 			return
 		}
@@ -721,4 +820,298 @@ func (r *Runner) closeAll() {
 			time.Sleep(time.Millisecond)
 		}
 	}
+}
+
+func (r *Runner) mark(name string) { r.Stats.Marks[name]++ }
+
+// departureMarks records what kind of departure is about to happen.
+func (r *Runner) departureMarks(mc *model.Conn) {
+	s := mc.Sess
+	if s == nil {
+		return
+	}
+	persist, volatile, attached, cascade := 0, 0, 0, false
+	for id, e := range s.Entities {
+		if e.Owner != mc.PID {
+			continue
+		}
+		if e.Persist {
+			persist++
+		} else {
+			volatile++
+		}
+		has := false
+		for k := range s.Comps {
+			if k.Entity == id {
+				has = true
+				if !e.Persist {
+					cascade = true
+				}
+			}
+		}
+		for k := range s.Actions {
+			if k.Entity == id {
+				has = true
+			}
+		}
+		if _, ok := s.Assets[id]; ok {
+			has = true
+		}
+		if has {
+			attached++
+		}
+	}
+	if len(s.Members) >= 2 {
+		r.mark("departure:witnessed")
+		if persist > 0 && volatile > 0 && attached > 0 {
+			r.mark("departure:rich")
+		}
+	}
+	if cascade {
+		r.mark("cascade:departure")
+	}
+	if len(s.Members) == 1 {
+		r.mark("departure:last-member")
+	}
+	subs := 0
+	for _, set := range s.Subs {
+		if set[mc.PID] {
+			subs++
+			if len(set) == 1 {
+				r.mark("departure:sole-subscriber")
+			}
+		}
+	}
+}
+
+func (r *Runner) preMarks(mc *model.Conn, req *model.Req) {
+	s := mc.Sess
+	if s == nil {
+		return
+	}
+	if req.Kind == "join" && s.SID != req.SID {
+		if _, live := r.M.Sessions[req.SID]; live || req.SID == "" {
+			r.departureMarks(mc)
+		}
+	}
+	switch req.Kind {
+	case "entity_del", "pose", "asset_add":
+		if e, ok := s.Entities[req.Entity]; ok && e.Owner != mc.PID {
+			r.mark("foreign:" + req.Kind)
+			if _, in := s.Members[e.Owner]; !in {
+				r.mark("foreign-after-owner-left:" + req.Kind)
+			}
+		}
+		if e, ok := s.Entities[req.Entity]; ok && e.Owner == mc.PID && req.Kind == "entity_del" {
+			for k := range s.Comps {
+				if k.Entity == req.Entity {
+					r.mark("cascade:entity_del")
+					break
+				}
+			}
+		}
+		if req.Kind == "asset_add" {
+			if _, ok := s.Assets[req.Entity]; ok {
+				r.mark("asset:replacement-attempt")
+			}
+		}
+	case "custom":
+		if n := len(req.Data); n >= 10238 && n <= 10242 {
+			r.mark("custom:near-limit")
+		}
+		seen := map[uint32]bool{}
+		for _, p := range req.Recipients {
+			if seen[p] {
+				r.mark("custom:duplicate-recipient")
+			}
+			seen[p] = true
+			if p == mc.PID {
+				r.mark("custom:self-recipient")
+			} else if _, in := s.Members[p]; !in {
+				r.mark("custom:stranger-recipient")
+			}
+		}
+	case "action":
+		if prev, ok := s.Actions[model.ActKey{Entity: req.Entity, Name: req.Name}]; ok && req.ActTS != nil && !req.ActNil {
+			switch {
+			case req.ActTS.Seconds == prev.Sec && req.ActTS.Nanos == prev.Nanos:
+				r.mark("action:equal-timestamp")
+			case req.ActTS.Seconds < prev.Sec || req.ActTS.Seconds == prev.Sec && req.ActTS.Nanos < prev.Nanos:
+				r.mark("action:older-timestamp")
+			}
+		}
+	case "comp_upd":
+		if _, ok := s.Comps[model.CompKey{Type: req.TypeID, Entity: req.Entity}]; ok {
+			r.mark("comp_upd:existing")
+		} else {
+			r.mark("comp_upd:missing")
+		}
+	case "comp_add":
+		if _, ok := s.Comps[model.CompKey{Type: req.TypeID, Entity: req.Entity}]; ok {
+			r.mark("comp_add:duplicate")
+		}
+	}
+}
+
+func (r *Runner) postMarks(mc *model.Conn, req *model.Req, o *model.Outcome) {
+	if len(o.Must) >= 2 {
+		r.mark("relay:multi-recipient")
+	}
+	if len(r.M.Sessions) >= 2 {
+		// coinciding ids across live sessions
+		seen := map[uint32]int{}
+		for _, s := range r.M.Sessions {
+			for id := range s.Entities {
+				seen[id]++
+			}
+		}
+		for _, n := range seen {
+			if n >= 2 {
+				r.mark("sessions:coinciding-entity-ids")
+				break
+			}
+		}
+		r.mark("sessions:two-or-more-live")
+	}
+	s := mc.Sess
+	if s == nil || !o.Accepted {
+		return
+	}
+	switch req.Kind {
+	case "comp_add", "comp_del", "comp_upd":
+		subs, non := 0, 0
+		for pid := range s.Members {
+			if pid == mc.PID {
+				continue
+			}
+			if s.Subs[req.TypeID][pid] {
+				subs++
+			} else {
+				non++
+			}
+		}
+		if len(s.Subs[req.TypeID]) == 0 {
+			r.mark("comp-change:no-subscriber")
+		}
+		if subs >= 2 && non >= 1 {
+			r.mark("comp-change:2-subscribers-1-other")
+		}
+		if subs >= 1 {
+			r.mark("comp-change:notified")
+		}
+	case "asset_add":
+		r.mark("asset:accepted")
+	case "action":
+		r.mark("action:accepted")
+	}
+}
+
+func sessName(mc *model.Conn) string {
+	if mc.Sess == nil {
+		return "<none>"
+	}
+	return mc.Sess.SID + "/" + mc.Sess.UUID
+}
+
+// attribute finds the request that caused a relay through its origin tag.
+func (r *Runner) attribute(e *d.Event) (tagInfo, bool) {
+	if e.M == nil {
+		return tagInfo{}, false
+	}
+	f := e.M.ProtoReflect().Descriptor().Fields().ByName("origin_timestamp")
+	if f == nil || !e.M.ProtoReflect().Has(f) {
+		return tagInfo{}, false
+	}
+	ts := e.M.ProtoReflect().Get(f).Message()
+	sec := ts.Get(ts.Descriptor().Fields().ByName("seconds")).Int()
+	nanos := ts.Get(ts.Descriptor().Fields().ByName("nanos")).Int()
+	id := (sec-1_600_000_000)*1_000_000_000 + nanos
+	ti, ok := r.tags[id]
+	return ti, ok
+}
+
+// record stores the normalised window of a connection for the current step.
+func (r *Runner) record(conn int, win []*d.Event) {
+	if !r.Cfg.Record || r.stepNo < 0 {
+		return
+	}
+	var out []string
+	for _, e := range win {
+		out = append(out, r.normEvent(e))
+	}
+	sort.Strings(out)
+	if r.Rec[conn] == nil {
+		r.Rec[conn] = map[int][]string{}
+	}
+	r.Rec[conn][r.stepNo] = append(r.Rec[conn][r.stepNo], out...)
+}
+
+// normEvent renders an event without server timestamps, UUIDs and concrete
+// session id strings (session ids become symbolic creation references).
+func (r *Runner) normEvent(e *d.Event) string {
+	if e.M == nil {
+		return d.TypeName(e.Type)
+	}
+	m := model.Norm(e.M, false)
+	// departure-caused relays carry the server's clock as origin timestamp
+	if f := m.ProtoReflect().Descriptor().Fields().ByName("origin_timestamp"); f != nil && m.ProtoReflect().Has(f) {
+		ts := m.ProtoReflect().Get(f).Message()
+		if ts.Get(ts.Descriptor().Fields().ByName("seconds")).Int() >= 1_650_000_000 {
+			m.ProtoReflect().Clear(f)
+		}
+	}
+	if jr, ok := m.(*hagallpb.ParticipantJoinResponse); ok {
+		ref := "S(?)"
+		if k, ok := r.sidRef[jr.SessionId]; ok {
+			ref = fmt.Sprintf("S(%d,%d)", k[0], k[1])
+		}
+		jr.SessionId, jr.SessionUuid = ref, ""
+	}
+	b, _ := proto.MarshalOptions{Deterministic: true}.Marshal(m)
+	return fmt.Sprintf("%s %x", d.TypeName(e.Type), b)
+}
+
+// FlagClass maps each DISABLE_* flag to the message type it suppresses.
+var FlagClass = map[string]int32{
+	"DISABLE_SESSION_STATE":                     d.TSessionState,
+	"DISABLE_PARTICIPANT_JOIN_BROADCAST":        d.TJoinBcast,
+	"DISABLE_PARTICIPANT_LEAVE_BROADCAST":       d.TLeaveBcast,
+	"DISABLE_ENTITY_ADD_BROADCAST":              d.TEntityAddBcast,
+	"DISABLE_ENTITY_DELETE_BROADCAST":           d.TEntityDelBcast,
+	"DISABLE_ENTITY_UPDATE_POSE_BROADCAST":      d.TPoseBcast,
+	"DISABLE_CUSTOM_MESSAGE_BROADCAST":          d.TCustomBcast,
+	"DISABLE_ENTITY_COMPONENT_ADD_BROADCAST":    d.TCompAddBcast,
+	"DISABLE_ENTITY_COMPONENT_UPDATE_BROADCAST": d.TCompUpdateBcast,
+	"DISABLE_ENTITY_COMPONENT_DELETE_BROADCAST": d.TCompDelBcast,
+}
+
+// flagged reports whether a known DISABLE_* flag is set for this history
+// (views are then not comparable: the client is deliberately not told).
+func (r *Runner) flagged() bool {
+	for _, f := range r.Cfg.Flags {
+		if _, ok := FlagClass[f]; ok {
+			return true
+		}
+	}
+	return false
+}
+
+// unsuppressed drops the relays whose class is disabled by a flag (C17).
+// The relay sites are in the handler of the connection that causes the relay,
+// so it is that connection's flags that count.
+func (r *Runner) unsuppressed(ps []model.Pat, requester *model.Conn) []model.Pat {
+	var out []model.Pat
+next:
+	for _, p := range ps {
+		f := p.M.ProtoReflect().Descriptor().Fields().ByName("type")
+		t := int32(p.M.ProtoReflect().Get(f).Enum())
+		for fl := range requester.Flags {
+			if c, ok := FlagClass[fl]; ok && c == t {
+				r.Stats.Marks["flag-suppressed:"+fl]++
+				continue next
+			}
+		}
+		out = append(out, p)
+	}
+	return out
 }
